@@ -245,7 +245,7 @@ func deviation(tape *simrt.Tape) (k knobs, mustFail bool) {
 			k.g = -3
 		}
 	case 13, 14:
-		k.gaKind = 1 + tape.Choose(simrt.Fault, 10)
+		k.gaKind = 1 + tape.Choose(simrt.Fault, 11)
 	case 15:
 		k.dhFail = true
 	case 16:
